@@ -100,6 +100,7 @@ type Handle struct {
 	Flags  int
 	Reads  int
 	Writes int
+	Seeks  int // Seek calls: a seek can start the streaming read without consuming anything (hidden handle state)
 }
 
 type WriteRec struct {
